@@ -153,6 +153,7 @@ _real_isinstance = isinstance
 def s_isinstance(obj, cls):
     import numpy as _np
     cl = cls if _real_isinstance(cls, tuple) else (cls,)
+    cl = tuple({s_float: float, s_int: int, s_bool: bool}.get(c, c) if callable(c) and not _real_isinstance(c, type) else c for c in cl)
     if _real_isinstance(obj, core.SArr):
         return any(c is core.SArr or c is _np.ndarray for c in cl)
     if _real_isinstance(obj, core.SInt):
@@ -246,8 +247,10 @@ def explore(unit, repo):
             Ctx.spec = 0
         res.paths += 1
         work.extend(ctx.pending)
+        keep = getattr(unit, 'keep_kinds', None)
         for n, o in enumerate(ctx.obl):
-            res.obligations.append(o)
+            if keep is None or o.kind in keep:
+                res.obligations.append(o)
         res.canary.append((list(ctx.pc_nogoal), ended, list(ctx.prefix[:ctx.pos])))
     Ctx.cur = None
     res.gen_s = time.time() - t0
